@@ -154,6 +154,10 @@ def main():
         "exhaustive": res.get("exhaustive", False),
         "broken_obligations": [b["obligation"] for b in broken],
     }
+    if discharged == 0:
+        # nothing discharged on this run (broken build): the proof keys would be invalid, keep the generic counts
+        coverage.pop("discharged")
+        coverage["discharged_none"] = True
     core.write_evidence(pid, tier, seed, coverage, getattr(mod, "ASSUMPTIONS", []), wall, len(lines))
     for l in lines:
         print(l)
